@@ -5,7 +5,7 @@ import itertools
 from vlib.core import Case
 
 ID = "C09"
-COMPONENTS = ["s_mdwire", "mdcodec"]
+COMPONENTS = ["s_mdwire", "mdcodec", "s_rawpeer"]
 T4 = ["MdWire"]
 PROOF_MODULES = ["GrpcProofs.Properties.C09"]
 THEOREMS = ["GrpcProofs.C09." + t for t in (
@@ -48,7 +48,7 @@ RULE = ("s_mdwire: one real RPC per op (unary, stream trailers-only, stream with
         "values per MD, invalid/reserved/special keys mixed in. RPCs that hit a listed known finding (host, connection) travel in single-op cases; F17 is "
         "judged on three dedicated `probe` ops. mdcodec: isReservedHeader/isWhitelistedHeader on all 1- and 2-byte names and the pools, Validate on every "
         "byte in key and value positions and random MDs, encode/decodeMetadataHeader on valid (raw and padded) and mutated base64, AppendToOutgoingContext "
-        "lower-casing on all ASCII bytes. A case is non-trivial when at least one handler ran.")
+        "lower-casing on all ASCII bytes. A case is non-trivial when at least one handler ran. s_rawpeer: the real server against a scripted raw HTTP/2 client and the real client against a scripted raw HTTP/2 server: request/response header fields grpc-go never writes itself (padded/raw/invalid base64, reserved names, duplicate and missing pseudo-headers, host with and without :authority, connection, content-type and :method variants, grpc-timeout good and malformed, names/values the framer rejects), every listed extra field alone in each position plus random combinations.")
 
 
 def hexs(bs):
@@ -241,6 +241,78 @@ def gen(rng, tier):
     yield Case("s_mdwire", ["probe b0 %s - none - none - 5" % show_md([(b"k", [b"v"])])], "probe-f17")
     yield Case("s_mdwire", ["probe b1 - - ss.send %s ss.set %s 0" % (show_md([(b"h", [b"1"])]), show_md([(b"t", [b"2"])]))], "probe-f17")
     yield from gen_fn(rng, tier)
+    yield from gen_peer(rng, tier)
+
+
+# ---- the real client / server against a scripted raw HTTP/2 peer (component s_rawpeer) -----------
+
+def fld(n, v):
+    return (hexs(n) if n else "~") + "=" + (hexs(v) if v else "~")
+
+
+def fields(fs):
+    return ";".join(fld(n, v) for n, v in fs) or "-"
+
+
+ST200 = (b":status", b"200")
+CTG = (b"content-type", b"application/grpc")
+REQ = [(b":method", b"POST"), (b":scheme", b"http"), (b":path", b"/v.S/B"), (b":authority", b"auth"), (b"content-type", b"application/grpc"), (b"te", b"trailers")]
+PEER_EXTRA = [(b"k", b"v"), (b"k", b"w"), (b"k-bin", b"AQI"), (b"k-bin", b"AQI="), (b"k-bin", b"AQ"), (b"k-bin", b"AQ=="), (b"k-bin", b""), (b"k-bin", b"A"),
+              (b"k-bin", b"AQ=I"), (b"k-bin", b"A Q"), (b"-bin", b"/w"), (b"te", b"x"), (b"grpc-status", b"9"), (b"grpc-message", b"m"),
+              (b"grpc-message-type", b"t"), (b"grpc-encoding", b"identity"), (b"user-agent", b"peer/1"), (b"user-agent", b"peer/2"),
+              (b"content-type", b"application/grpc+proto"), (b"grpc-accept-encoding", b"gzip"), (b"grpc-accept-encoding", b""),
+              (b"grpc-previous-rpc-attempts", b"2"), (b"x.y_z-0", b" sp "), (b"v", b"\xff\xfe"), (b"v", b"tab\there"), (b"empty", b""),
+              (b"grpc-status-details-bin", b"CAU"), (b"grpc-tags-bin", b"AAAA")]
+PEER_BAD = [(b"Kx", b"v"), (b"k", b"a\x00b"), (b"k", b"a\nb"), (b"k", b"\x7f"), (b"", b"v"), (b"k k", b"v"), (b"k\xc3\xa9", b"v"), (b":foo", b"v"),
+            (b":path", b"/again"), (b":status", b"200"), (b":authority", b"second")]
+
+
+def gen_peer(rng, tier):
+    n = {"quick": 150, "thorough": 4000, "search": 1500}[tier]
+    ops = []
+    # --- raw client -> real server
+    ops.append("cli " + fields(REQ))
+    for e in PEER_EXTRA + PEER_BAD:
+        ops.append("cli " + fields(REQ + [e]))
+        ops.append("cli " + fields(REQ[:3] + [e] + REQ[3:]))          # (pseudo-after-regular when e is regular)
+    noauth = [f for f in REQ if f[0] != b":authority"]
+    for extra in ([], [(b"host", b"h1")], [(b"host", b"h1"), (b"host", b"h2")], [(b"connection", b"close")], [(b"grpc-timeout", b"5S")],
+                  [(b"grpc-timeout", b"5x")], [(b"grpc-timeout", b"123456789S")], [(b"grpc-timeout", b"")]):
+        ops.append("cli " + fields(REQ + extra))
+        ops.append("cli " + fields(noauth + extra))
+    for ct in (b"application/grpc+proto", b"application/grpc;x=y", b"application/grpc+", b"application/grpcx", b"text/html", b"", b"application/grp", b"APPLICATION/GRPC"):
+        ops.append("cli " + fields([f if f[0] != b"content-type" else (b"content-type", ct) for f in REQ]))
+    ops.append("cli " + fields([f for f in REQ if f[0] != b"content-type"]))
+    for m in (b"GET", b"post", b""):
+        ops.append("cli " + fields([f if f[0] != b":method" else (b":method", m) for f in REQ]))
+    ops.append("cli " + fields([f for f in REQ if f[0] != b":method"]))
+    for _ in range(n):
+        ex = [rng.choice(PEER_EXTRA) for _ in range(rng.randrange(0, 6))]
+        if rng.random() < 0.15:
+            ex.insert(rng.randrange(len(ex) + 1), rng.choice(PEER_BAD))
+        ops.append("cli " + fields(REQ + ex))
+    # --- real client <- raw server
+    for e in PEER_EXTRA + PEER_BAD:
+        if e[0] == b"grpc-encoding":
+            continue
+        ops.append("srv %s 0 %s" % (fields([ST200, CTG, e]), fields([(b"grpc-status", b"0")])))
+        ops.append("srv %s 1 %s" % (fields([ST200, CTG]), fields([(b"grpc-status", b"5"), e])))
+        ops.append("srv - 0 %s" % fields([ST200, CTG, (b"grpc-status", b"5"), e]))
+    for _ in range(n):
+        h = [e for e in (rng.choice(PEER_EXTRA) for _ in range(rng.randrange(0, 5))) if e[0] != b"grpc-encoding"]
+        t = [e for e in (rng.choice(PEER_EXTRA) for _ in range(rng.randrange(0, 5))) if e[0] not in (b"grpc-status", b"grpc-status-details-bin")]
+        if rng.random() < 0.1:
+            h.append(rng.choice(PEER_BAD))
+        if rng.random() < 0.1:
+            t.append(rng.choice(PEER_BAD[:7]))
+        code = rng.choice([b"0", b"5", b"16"])
+        if rng.random() < 0.7:
+            ops.append("srv %s %d %s" % (fields([ST200, CTG] + h), rng.randrange(2), fields([(b"grpc-status", code)] + t)))
+        else:
+            ops.append("srv - 0 %s" % fields([ST200, CTG, (b"grpc-status", code)] + t))
+    per = 25
+    for i in range(0, len(ops), per):
+        yield Case("s_rawpeer", ops[i:i + per], "rawpeer-%d" % (i // per))
 
 
 B64 = b"ABCDEFGHIJKLMNOPQRSTUVWXYZabcdefghijklmnopqrstuvwxyz0123456789+/"
@@ -297,4 +369,6 @@ def gen_fn(rng, tier):
 def nontrivial(case, impl_lines):
     if case.component == "mdcodec":
         return True
+    if case.component == "s_rawpeer":
+        return any("=3a" in l or "hdr=63" in l for l in impl_lines)
     return any("in=3a" in l for l in impl_lines)
